@@ -195,7 +195,9 @@ fn read_files(variant: u64) -> Vec<(String, String)> {
     let f1 = json!([[it("x", 1)], [it("x", 2)]]);
     let f2 = json!([[it("x", 1), it("lb", 0)], [it("x", 2), it("rb", 0), it("x", 3)], [it("x", 1), it("rb", 0), it("x", 2)], []]);
     let f3 = json!([]);
+    let f4 = json!([[it("x", 3)], [it("x", 1), it("lb", 0), it("x", 2), it("rb", 0), it("rb", 0), it("x", 3)]]);
     vec![
+        ("rd.tex".to_string(), render_file(f4.as_array().unwrap(), variant & 4 == 4)),
         ("ra.tex".to_string(), render_file(f1.as_array().unwrap(), variant & 1 == 1)),
         ("rb.tex".to_string(), render_file(f2.as_array().unwrap(), true)),
         ("rc.tex".to_string(), render_file(f3.as_array().unwrap(), variant & 2 == 2)),
@@ -207,7 +209,7 @@ fn op_source(o: &Value) -> String {
     // TLC's stream numbers 1,2 are bound to TeX streams 0 and 15 (both ends of the range)
     let sn = if n == 1 { 0 } else { 15 };
     match o["k"].as_str().unwrap() {
-        "open" => format!("\\openin {sn}={} ", ["nosuchfile", "ra", "rb", "rc"][o["f"].as_u64().unwrap() as usize]),
+        "open" => format!("\\openin {sn}={} ", ["nosuchfile", "ra", "rb", "rc", "rd"][o["f"].as_u64().unwrap() as usize]),
         "close" => format!("\\closein {sn} "),
         "ifeof" => format!("[\\ifeof {sn} T\\else F\\fi]"),
         "read" => format!("\\read {sn} to \\rl \\rl |"),
